@@ -5,6 +5,7 @@ import (
 	"fmt"
 	"sort"
 	"strings"
+	"time"
 
 	"rcproxy/core/zz_verif/world"
 )
@@ -292,6 +293,42 @@ func c02Scenarios(tier string) []*world.Scenario {
 		out = append(out, c02Seg("get", world.Cmd("get", keysA[0]), c02Shapes[sh], nil, nil, true, slowB))
 		out = append(out, c02Seg("get", world.Cmd("get", keysA[0]), c02Shapes[sh], nil, []int{7}, true, slowB))
 	}
+	// slow reader with several replies in flight: partial drains of the backlog interleaved with new replies
+	// (the backlog crosses from the ring part into the list part of the outbound buffer at 64 bytes)
+	for _, sizes := range [][]int{{90, 40, 30}, {30, 90, 90}, {70, 70, 70}} {
+		var reqs []Req
+		replyOf := map[string][]byte{}
+		for j, sz := range sizes {
+			k := keysA[j]
+			r := GetReq(k)
+			r.Expect = world.Bulk(fmt.Sprintf("%c", 'a'+j) + strings.Repeat(fmt.Sprintf("%d", j), sz-7))
+			replyOf[k] = r.Expect
+			reqs = append(reqs, r)
+		}
+		sc := &world.Scenario{Nodes: T3m(), Bound: slowB + 1, Family: "slow-reader-pipeline", Horizon: 400, WriteOracle: true, WriteCap: 64}
+		cs := ClientOf(reqs, true)
+		cs.Slow = true
+		sc.Clients = []world.ClientSpec{cs}
+		sc.Reply = func(w *world.World, bc *world.BConn, args [][]byte) ([]byte, int) {
+			if len(args) > 1 {
+				if r, ok := replyOf[string(args[1])]; ok {
+					return r, 0
+				}
+			}
+			return nil, 0
+		}
+		sc.Name = fmt.Sprintf("C02/slow-pipeline/replies%v/d%d", sizes, sc.Bound)
+		sc.Check = func(w *world.World) []world.Violation {
+			vs := CheckStreams(w, StreamOpts{})
+			for i := range vs {
+				if vs[i].Sig == "corrupt" || vs[i].Sig == "forwarded-swap" {
+					vs[i].Sig = "reply-bytes-differ"
+				}
+			}
+			return vs
+		}
+		out = append(out, sc)
+	}
 	if thorough {
 		// "multi-megabyte" argument, production buffer sizes
 		big := strings.Repeat("M", 2<<20)
@@ -544,9 +581,66 @@ func c04HandshakeCuts(mask int, password string, replica bool) *world.Scenario {
 	return sc
 }
 
+// c04RoleFlip: a master with open connections is demoted to replica (failover): reads routed to it afterwards
+// must travel on a connection that was switched to READONLY; a promoted replica must accept writes.
+func c04RoleFlip(password string, bound int) *world.Scenario {
+	before := []world.NodeSpec{
+		{Name: "aaa", Addr: AddrA, Slots: [][2]int{{0, 5460}}},
+		{Name: "bbb", Addr: AddrB, Slots: [][2]int{{5461, 10922}}},
+		{Name: "ccc", Addr: AddrC, Slots: [][2]int{{10923, 16383}}},
+		{Name: "a1", Addr: AddrA1, Master: "aaa"},
+	}
+	after := []world.NodeSpec{
+		{Name: "a1", Addr: AddrA1, Slots: [][2]int{{0, 5460}}},
+		{Name: "bbb", Addr: AddrB, Slots: [][2]int{{5461, 10922}}},
+		{Name: "ccc", Addr: AddrC, Slots: [][2]int{{10923, 16383}}},
+		{Name: "aaa", Addr: AddrA, Master: "a1"},
+	}
+	sc := &world.Scenario{Nodes: before, Bound: bound, Family: "role-flip", Horizon: 400, Password: password,
+		Faults: []world.Fault{{Kind: "topo", Nodes: after}}, Ticks: []time.Duration{1100 * time.Millisecond}}
+	sc.TickGate = func(w *world.World) bool { return w.FaultsDone() }
+	k := keysA[0]
+	w1, r1 := SetReq(k, "v"), GetReq(k)
+	cs := ClientOf([]Req{w1, r1, r1, w1}, false)
+	cs.Chunks[2].WaitTicks, cs.Chunks[3].WaitTicks = 1, 1
+	cs.Chunks[2].WaitReplies, cs.Chunks[3].WaitReplies = 2, 3
+	sc.Clients = []world.ClientSpec{cs}
+	sc.Name = fmt.Sprintf("C04/role-flip/pw=%v/d%d", password != "", bound)
+	sc.Check = func(w *world.World) []world.Violation {
+		var vs []world.Violation
+		for _, rec := range w.DataCmds("") {
+			if rec.CR < 2 {
+				continue // sent before the clock tick at which the proxy adopts the new topology: routed by the old one
+			}
+			if rec.Replica && !rec.ReadOnly {
+				vs = append(vs, world.Violation{Sig: "request-before-readonly", Msg: fmt.Sprintf("%q was sent to %s, a replica at that time, on connection %d which had not been switched to READONLY", rec.Raw, rec.Addr, rec.Conn)})
+				break
+			}
+			name := world.Lower(rec.Args[0])
+			if sp, ok := world.SpecTable[name]; ok && sp.Write && rec.Replica {
+				vs = append(vs, world.Violation{Sig: "write-to-replica:" + name, Msg: fmt.Sprintf("%q was sent to %s, a replica at that time", rec.Raw, rec.Addr)})
+				break
+			}
+		}
+		if len(vs) == 0 {
+			// a request in flight on a connection that the role change closes may be answered with an error (C15)
+			vs = CheckStreams(w, StreamOpts{AnyError: func(ci, j int) bool { return true }})
+		}
+		return vs
+	}
+	return sc
+}
+
 func c04Scenarios(tier string) []*world.Scenario {
 	var out []*world.Scenario
 	thorough := tier == "thorough"
+	for _, pw := range []string{"", "secret"} {
+		b := 2
+		if thorough {
+			b = 3
+		}
+		out = append(out, c04RoleFlip(pw, b))
+	}
 	lays := []string{"thirds", "edges"}
 	if thorough {
 		lays = []string{"thirds", "alternating", "edges"}
